@@ -788,6 +788,11 @@ def fold_ext_attr(mod, name):
     if mod == 'functools' and name == 'WRAPPER_ASSIGNMENTS':
         import functools
         return K(tuple(functools.WRAPPER_ASSIGNMENTS))
+    if mod == 'string':
+        import string
+        v = getattr(string, name, None)
+        if isinstance(v, str):
+            return K(v)
     if mod in _FOLD_MODULES:
         import importlib
         try:
@@ -1063,6 +1068,9 @@ def list_method(interp, base, name, args, kwargs):
             if same(x, args[0]):
                 return K(i)
         raise AbsRaise(T('exc', 'ValueError', 'not in list'))
+    if not hasattr(list, name):
+        raise AbsRaise(T('exc', 'AttributeError',
+                         "'list' object has no attribute %r" % name))
     raise Inexact('list.%s' % name)
 
 
